@@ -74,7 +74,7 @@ def run(tier):
     MID_OPS = ("VDeleteIndex", "VCompress", "VImportCommit")
     for name, consts, n in (("base", dict(base, MaxOps=2 if quick else 3), 70 if quick else 1500),
                             ("graph", dict(graph, MaxOps=2 if quick else 3), 40 if quick else 1000),
-                            ("seeded", dict(seeded, MaxOps=2), 40 if quick else 800),
+                            ("seeded", dict(seeded, MaxOps=2), 150 if quick else 800),
                             # the seed holds an edge that was linked, soft-unlinked and linked again: the old log replayed
                             # over a newer image (crash between snapshot rename and truncation) must change nothing
                             ("edge_history", dict(ec.SEEDED_G, MaxOps=1 if quick else 2), 30 if quick else 800),
@@ -114,7 +114,35 @@ def run(tier):
         # prefer states with something at stake: a non-empty log or a snapshot-worthy state
         recs.sort(key=lambda x: json.dumps(x["ops"], sort_keys=True))
         if len(recs) > n:
-            recs = rng.sample(recs, n)
+            # stratified by the kinds of call in the history (an inverse-relation link, a soft / hard unlink and a
+            # delete count as kinds of their own): every combination the corpus holds is drawn from before any is
+            # drawn from twice -- a uniform sample left rare combinations (inverse link + delete) to the seed
+            def kinds(x):
+                ks = set()
+                for o in x["ops"]:
+                    k = o.get("op", "?")
+                    if k == "VLink" and o.get("inv") not in (None, "nil"):
+                        k = "VLink+inv"
+                    if k == "VUnlink" and o.get("hard") in (True, "TRUE"):
+                        k = "VUnlink+hard"
+                    if k in ("VDelete", "VDeleteCut") and any(p_.get("op") == "VLink" and o.get("id") in (p_.get("s"), p_.get("t")) for p_ in x["ops"]):
+                        k += "@linked"
+                    ks.add(k + ("!" if o.get("res") == "err" else ""))
+                return tuple(sorted(ks))
+            strata = {}
+            for x in recs:
+                strata.setdefault(kinds(x), []).append(x)
+            for v in strata.values():
+                rng.shuffle(v)
+            order = sorted(strata)
+            rng.shuffle(order)
+            picked = []
+            while len(picked) < n:
+                for k in order:
+                    if strata[k] and len(picked) < n:
+                        picked.append(strata[k].pop())
+            recs = picked
+            chk.cov.setdefault("strata_per_plan", {})[name] = len(order)
         seedn = (1 + len(ec.profile_for(consts)["ids"]) + (4 if consts.get("SeedGraph") == "TRUE" else 0)) if consts.get("Seeded") == "TRUE" else 0
         cases = [dict(x, id="%s%d" % (name[0], i), flush_after=seedn) for i, x in enumerate(recs)]
         if seedn:
